@@ -151,7 +151,8 @@ every field within its range, names legal and printed/parsed in a configuration 
 character-strings of any octets within their length limits, blobs non-empty, chunking lossless, and the
 constructor's own validation. -/
 def WfText (tn : String) (st : Style) (env : PEnv) (vals : List FV) (tail : Option FV) : Prop :=
-  ∃ sch, schemaOf tn = some sch ∧ FieldsOk st env sch.fields vals ∧ TailOk st vals sch.tail tail ∧ sch.check vals tail = true
+  ∃ sch, schemaOf tn = some sch ∧ FieldsOk st env sch.fields vals ∧ TailOk st vals sch.tail tail ∧ (sch.tail = .bitmap → sch.fields ≠ []) ∧
+    sch.check vals tail = true
 
 /-- "for every implemented record type and every well-formed value, the text form parses back to an equal record: with
 arbitrary octets in character-strings and names … producing text never fails": for every type described by a schema whose
@@ -162,8 +163,8 @@ theorem parseText_printText (tn : String) (st : Style) (env : PEnv) (vals : List
     (h : WfText tn st env vals tail) :
     ∃ sch text, schemaOf tn = some sch ∧ printRec sch st vals tail = some text ∧
       fromTextRdata (some tn) env text = some (.known vals tail) := by
-  obtain ⟨sch, hsch, hf, ht, hchk⟩ := h
-  obtain ⟨text, hp, hr⟩ := record_roundtrip tn sch hsch st env vals tail hf ht hchk
+  obtain ⟨sch, hsch, hf, ht, hbf, hchk⟩ := h
+  obtain ⟨text, hp, hr⟩ := record_roundtrip tn sch hsch st env vals tail hf ht hbf hchk
   exact ⟨sch, text, hsch, hp, hr⟩
 
 /-- "producing text never fails for a record the library accepted from text or wire", for the schema types under `WfText`
@@ -177,7 +178,7 @@ theorem text_total (tn : String) (st : Style) (env : PEnv) (vals : List FV) (tai
 def kindProved : FK → Bool
   | .uint _ | .ttl | .algo | .name | .ip4 | .ip6 | .salt | .oct16 | .eui _ | .hex16x4 | .nsap => true
   | .cstr _ _ _ => true
-  | .rdtype | .algoName | .scheme | .ctype | .keyFlags | .keyProto | .sigtime => true
+  | .rdtype | .algoName | .scheme | .ctype | .keyFlags | .keyProto | .sigtime | .b32hex => true
 
 /-- the record types whose every field kind is covered by `parseText_printText` -/
 def provedTypes : List String :=
@@ -185,7 +186,7 @@ def provedTypes : List String :=
    "TXT", "SPF", "AVC", "NINFO", "RESINFO", "WALLET", "HINFO", "X25", "ISDN", "NAPTR", "CAA", "URI", "DS", "DLV", "CDS",
    "TLSA", "SMIMEA", "SSHFP", "ZONEMD", "DNSKEY", "CDNSKEY", "DHCID", "OPENPGPKEY", "BRID", "HHIT", "L32", "NSEC3PARAM",
    "CH-A", "EUI48", "EUI64", "NID", "L64", "NSAP",
-   "CERT", "DSYNC", "KEY", "RRSIG", "SIG"]
+   "CERT", "DSYNC", "KEY", "RRSIG", "SIG", "NSEC", "CSYNC", "NSEC3"]
 
 /-- every type in `provedTypes` has a schema made of proved field kinds only (complete finite table, by `decide`) -/
 theorem provedTypes_covered :
@@ -194,7 +195,7 @@ theorem provedTypes_covered :
 
 /-- non-vacuity: `MX 10 mail.example.`, `TXT "a\200" ""`, `DS 1 8 2 <32 octets>` are well-formed for text -/
 example : WfText "MX" {} {} [.n 10, .nm [[109, 97, 105, 108], [101, 120], []]] none := by
-  refine ⟨_, rfl, ⟨by simp [FieldOk, u16], ⟨?_, trivial⟩⟩, trivial, rfl⟩
+  refine ⟨_, rfl, ⟨by simp [FieldOk, u16], ⟨?_, trivial⟩⟩, trivial, by decide, rfl⟩
   refine nameCfg_ok _ _ _ ?_ ?_ (Or.inl ⟨rfl, rfl, rfl⟩)
   · refine ⟨?_, ?_, ?_⟩ <;> decide
   · unfold OctetsOk; decide
@@ -203,7 +204,7 @@ example : WfText "MX" {} {} [.n 10, .nm [[109, 97, 105, 108], [101, 120], []]] n
 `relativize` value (`mail` / `mail.ex.`), parsed with `origin=ex., relativize=True` -/
 example (r : Bool) : WfText "MX" { origin := some [[101, 120], []], relativize := r }
     { origin := some [[101, 120], []], relativize := true } [.n 10, .nm [[109, 97, 105, 108]]] none := by
-  refine ⟨_, rfl, ⟨by simp [FieldOk, u16], ⟨?_, trivial⟩⟩, trivial, rfl⟩
+  refine ⟨_, rfl, ⟨by simp [FieldOk, u16], ⟨?_, trivial⟩⟩, trivial, by decide, rfl⟩
   refine nameCfg_ok _ _ _ ?_ ?_ (Or.inr (Or.inr ⟨[[101, 120], []], rfl, by decide, by unfold OctetsOk; decide, rfl,
     by decide, Or.inr rfl, Or.inl ⟨by decide, ?_⟩⟩))
   · refine ⟨?_, ?_, ?_⟩ <;> decide
@@ -213,15 +214,15 @@ example (r : Bool) : WfText "MX" { origin := some [[101, 120], []], relativize :
 /-- `HINFO "\\200\"" ""`: a high octet and a quote in a character-string -/
 example : WfText "HINFO" {} {} [.b [200, 34], .b []] none := by
   refine ⟨_, rfl, ⟨⟨by decide, by intro m hm; cases hm; decide, by intro m hm; cases hm; decide⟩,
-    ⟨⟨by decide, by intro m hm; cases hm; decide, by intro m hm; cases hm; decide⟩, trivial⟩⟩, trivial, rfl⟩
+    ⟨⟨by decide, by intro m hm; cases hm; decide, by intro m hm; cases hm; decide⟩, trivial⟩⟩, trivial, by decide, rfl⟩
 
 /-- TXT under `txt_is_utf8` with a string that is valid UTF-8 (NBSP) and one that is not -/
 example : WfText "TXT" { txtUtf8 := true } {} [] (some (.bl [[0x61, 0xC2, 0xA0], [0xFF]])) := by
-  refine ⟨_, rfl, trivial, ⟨by simp, ?_⟩, rfl⟩
+  refine ⟨_, rfl, trivial, ⟨by simp, ?_⟩, by decide, rfl⟩
   intro s hs; simp at hs; rcases hs with rfl | rfl <;> refine ⟨by decide, by decide⟩
 
 example : WfText "TXT" {} {} [] (some (.bl [[97, 200], []])) := by
-  refine ⟨_, rfl, trivial, ⟨by simp, ?_⟩, rfl⟩
+  refine ⟨_, rfl, trivial, ⟨by simp, ?_⟩, by decide, rfl⟩
   intro s hs; simp at hs; rcases hs with rfl | rfl <;> refine ⟨by decide, by decide⟩
 
 end C05
